@@ -131,6 +131,31 @@ def correspondence(ctx):
         out.setdefault("notes", []).extend(sc.get("notes", []))
     except (ModuleNotFoundError, AttributeError):
         out.setdefault("notes", []).append("checks/c18.py has no raw_sasl_cut_cases yet")
+    # the Reader on a new connection after a cut fetch response: no record lost, duplicated or
+    # reordered (checks/c02.py reader_cut_cases, real kafka.Reader, cut in every region of the frame)
+    try:
+        rc = importlib.import_module("checks.c02").reader_cut_cases(ctx)
+        out["evaluations"] += rc.get("evaluations", 0)
+        out["distinct_nontrivial"] += rc.get("distinct_nontrivial", 0)
+        out["failures"] += rc.get("failures", [])
+        out["extra"]["reader_cut_evaluations"] = rc.get("evaluations", 0)
+        out["extra"]["reader_cut_hist"] = rc.get("hist", {})
+        out["samples"] += rc.get("samples", [])[:2]
+        out.setdefault("notes", []).extend(rc.get("notes", []) or [])
+    except (ModuleNotFoundError, AttributeError):
+        out.setdefault("notes", []).append("checks/c02.py has no reader_cut_cases yet")
+    # Client.ListOffsets / OffsetFetch through the real Transport with sub-responses cut at every
+    # byte: a cut partition carries an error, never placeholder offsets (checks/c19.py listoffsets_cut_cases)
+    try:
+        lc = importlib.import_module("checks.c19").listoffsets_cut_cases(ctx)
+        out["evaluations"] += lc.get("evaluations", 0)
+        out["distinct_nontrivial"] += lc.get("distinct_nontrivial", 0)
+        out["failures"] += lc.get("failures", [])
+        out["extra"]["listoffsets_cut_evaluations"] = lc.get("evaluations", 0)
+        out["extra"]["listoffsets_cut_hist"] = lc.get("hist", {})
+        out["samples"] += lc.get("samples", [])[:2]
+    except (ModuleNotFoundError, AttributeError):
+        out.setdefault("notes", []).append("checks/c19.py has no listoffsets_cut_cases yet")
     return out
 
 
